@@ -101,6 +101,13 @@ def check(repo, res, tier):
                         'else provisioning raises)')
     borrow(repo, res, tier, c03, {'C03.Q3'}, 'C05.L14')
     borrow(repo, res, tier, c08, {'C08.A4'}, 'C05.L14')
+    res.rule('C05.L16', 'adopted C04.T10 (a stored observation is offered to the scheduler exactly when the hot tier is not over '
+                        'its threshold -- the same test Buffer.run uses to move data out: a boundary the two disagree on leaves an '
+                        'observation that is neither moved nor offered, for ever) and C18.V4 (a completed move clears the '
+                        'sender\'s transfer slot: a stale entry keeps counting against the tier and refuses later observations '
+                        'for ever)')
+    borrow(repo, res, tier, c04, {'C04.T10'}, 'C05.L16')
+    borrow(repo, res, tier, c18, {'C18.V4'}, 'C05.L16')
 
 
 # ---------------------------------------------------------------------- L1
